@@ -125,12 +125,16 @@ Section Eval.
                                    else if String.eqb op "lt" then Z.ltb x y else if String.eqb op "gt" then Z.ltb y x
                                    else if String.eqb op "lteq" then Z.leb x y else if String.eqb op "gteq" then Z.leb y x else false)
         | VBool x, VBool y => VBool (if String.eqb op "eq" then Bool.eqb x y else if String.eqb op "ne" then negb (Bool.eqb x y) else false)
+        | VStr x, VList l =>
+            let mem := existsb (fun v => match v with VStr y => String.eqb x y | _ => false end) l in
+            VBool (if String.eqb op "in" then mem else if String.eqb op "notin" then negb mem else if String.eqb op "ne" then true else false)
         | _, _ => VBool false
         end
     | EBin op a b =>
         match eval st a, eval st b with
         | VInt x, VInt y => VInt (if String.eqb op "add" then x + y else if String.eqb op "sub" then x - y else x * y)%Z
         | VStr x, VStr y => if String.eqb op "add" then VStr (x ++ y) else VUndef
+        | VStr x, VInt y => if String.eqb op "mul" then VStr (fold_right (fun _ acc => (x ++ acc)%string) "" (seq 0 (Z.to_nat y))) else VUndef
         | _, _ => VUndef
         end
     | EFilter name x args kwargs =>
